@@ -241,10 +241,10 @@ theorem sweepFrom_total (code : Array Nat) (fuel pc : Nat) (hpc : pc ≤ code.si
 /-! ## the certificate check is sound for the abstract machine -/
 
 theorem checkCert_entry {P : Prog} {f : Func} {cfg : Cfg} {cert : List St}
-    (h : checkCert P f cfg cert = true) : St.entry ∈ cert := by
+    (h : checkCert P f cfg cert = true) : St.entry f cfg ∈ cert := by
   unfold checkCert at h
   simp only [Bool.and_eq_true] at h
-  exact (idx_contains_iff cert St.entry).mp h.1
+  exact (idx_contains_iff cert (St.entry f cfg)).mp h.1
 
 theorem checkCert_closed {P : Prog} {f : Func} {cfg : Cfg} {cert : List St}
     (h : checkCert P f cfg cert = true) {s : St} (hs : s ∈ cert) :
@@ -278,7 +278,7 @@ theorem onBoundaries_mem {bs : List Nat} {cert : List St} (h : onBoundaries bs c
 
 /-- list-membership form of `checkCert` (the kernel can evaluate it; the hash index is only speed) -/
 def checkCertL (P : Prog) (f : Func) (cfg : Cfg) (cert : List St) : Bool :=
-  cert.contains St.entry &&
+  cert.contains (St.entry f cfg) &&
   cert.all fun s =>
     match exec P f cfg s with
     | .ok l => l.all fun s' => cert.contains s'
@@ -298,7 +298,7 @@ def stepAll (P : Prog) (f : Func) (cfg : Cfg) (l : List St) : List St :=
     | .error _ => []
 
 def reachN (P : Prog) (f : Func) (cfg : Cfg) : Nat → List St
-  | 0 => [St.entry]
+  | 0 => [St.entry f cfg]
   | n + 1 => stepAll P f cfg (reachN P f cfg n)
 
 theorem reachN_sound (P : Prog) (f : Func) (cfg : Cfg) (n : Nat) :
